@@ -114,12 +114,19 @@ def gen_case(rng, tool, malformed_ok=True):
         if rng.random() < 0.5:   # put the tolerance exactly on / next to the total decrease of some row
             tds = [cc.total_decrease(r) for r in c["rows"] if not any(math.isnan(v) for v in r)]
             if tds:
-                c["tol"] = max(0.0, rng.choice(tds) + rng.choice([0, 0, -0.125, 0.125]))
+                # ... including a hair (2^-30, 2^-40: exactly representable) below / above it: "decreasing outside tolerance"
+                # is an exact comparison, not one up to a relative or absolute closeness
+                c["tol"] = max(0.0, rng.choice(tds) + rng.choice([0, 0, -0.125, 0.125, -2.0 ** -30, 2.0 ** -30, -2.0 ** -40, 2.0 ** -40]))
     if tool == "integrate":
         c["pw"] = None if rng.random() < 0.5 else [[rng.choice([0.0, 1.0, 0.5, 0.25, 2.0, cc.NAN if rng.random() < 0.2 else 1.0])
                                                       for _ in r] for r in c["rows"]]
     if tool == "adjust":
         c["tol"] = rng.choice([0, 0, 0, 0.125, 0.25, 0.5] + ([-0.25] if malformed_ok and rng.random() < 0.3 else []))
+        if rng.random() < 0.3:   # the tolerance a hair below / above the total decrease of some row (see "decreasing")
+            tds = [cc.total_decrease(r) for r in c["rows"] if not any(math.isnan(v) for v in r)]
+            tds = [t for t in tds if t > 0]
+            if tds:
+                c["tol"] = max(0.0, rng.choice(tds) + rng.choice([0, -2.0 ** -30, 2.0 ** -30]))
         c.update(cc.gen_obs(rng, c))
         c["additional"] = rng.choice([None, None, [], [rng.randint(-4, 16) / 2 for _ in range(rng.randint(1, 3))]])
         c["fill"] = rng.choice(["linear", "linear", "step", "forward", "backward"])
